@@ -98,6 +98,9 @@ def run(ctx):
     rep.rule("C10.R1", "strains have no data path from the interpolated position", 8)
     rep.rule("C10.R2", "consumers discard the position output of the kernels", 8)
     rep.rule("C10.R3", "same kernel / quadrature point / scaling for reference and current strains", 30)
+    rep.rule("C10.R6", "rod kernels build every nodal / interpolated rotation with the normalising quaternion map: objectivity also at non-unit nodal quaternions", 15)
+    from .c11 import normalising_rule
+    normalising_rule(ctx, "C10.R6", lambda rel: rel.startswith("cardillo/rods/"), 15)
     rep.rule("C10.R5", "the reference strains are evaluated on the reference coordinates as supplied (self.Q is a verbatim copy; nothing rewrites it)", 3)
     reference_verbatim(ctx)
     rep.rule("C10.R4", "derivative weights in the position rows; argument order of the material law", 6)
@@ -278,5 +281,9 @@ MUTANTS += [
     dict(id="c10-r5-seed", canary=True, what="[seeded by sub-agent] set_reference_strains normalises the nodal quaternions of the stored reference before evaluating the strains", file="cardillo/rods/_base.py",
          old="        self.Q = Q.copy()\n\n        # precompute values of the reference configuration",
          new="        self.Q = Q.copy()\n        for node in range(self.nnodes_p):\n            p = self.Q[self.nodalDOF_p[node]]\n            self.Q[self.nodalDOF_p[node]] = p / norm(p)\n\n        # precompute values of the reference configuration", expect="C10.R5"),
+]
+MUTANTS += [
+    dict(id="c10-r6-seed", canary=True, what="[seeded by sub-agent] SE3 interpolation builds the nodal rotations without normalising the nodal quaternion", file=CR,
+         old="                A_IB_node = Exp_SO3_quat(qe[self.nodalDOF_element_p[node]])", new="                A_IB_node = Exp_SO3_quat(qe[self.nodalDOF_element_p[node]], normalize=False)", expect="C10.R6", optional=True),
 ]
 NEUTRAL = []
